@@ -78,7 +78,7 @@ func (fi *FuncInfo) ensureFacts() {
 	}
 	// edge facts
 	for _, b := range fn.Blocks {
-		if len(b.Instrs) == 0 {
+		if len(b.Instrs) == 0 || b == b.Parent().Recover {
 			continue
 		}
 		iff, ok := b.Instrs[len(b.Instrs)-1].(*ssa.If)
@@ -293,7 +293,7 @@ func (p *Program) buildRetSummary(fn *ssa.Function, depth int) *RetSummary {
 		var acc map[string]Fact
 		first := true
 		for _, b := range fn.Blocks {
-			if len(b.Instrs) == 0 {
+			if len(b.Instrs) == 0 || b == b.Parent().Recover {
 				continue
 			}
 			ret, ok := b.Instrs[len(b.Instrs)-1].(*ssa.Return)
